@@ -33,17 +33,22 @@ Record part := mkPart {
   p_rop : bool               (* proto.Partition.Readonly *)
 }.
 
-Record strm := mkStrm { st_parts : list part; st_tomb : bool; st_resume_all : bool }.
+Record strm := mkStrm { st_parts : list part; st_tomb : bool }.
 Record grp := mkGrp { gr_coord : bid; gr_g : group }.
 
+(* the replicated metadata proper *)
+Record core := mkCore { c_streams : list (sid * strm); c_groups : list (gid * grp) }.
+
 Record meta := mkMeta {
-  mt_streams : list (sid * strm);
-  mt_groups : list (gid * grp);
-  mt_disk : list (sid * N);        (* data directory of a stream name: index of the create whose data it holds, 0 = empty *)
+  mt_core : core;
+  mt_disk : list (sid * N);       (* data directory of a stream name: index of the create whose data it holds, 0 = empty *)
   mt_activity : N
 }.
+Definition mt_streams (m : meta) := c_streams (mt_core m).
+Definition mt_groups (m : meta) := c_groups (mt_core m).
 
-Definition empty_meta : meta := mkMeta [] [] [] 0.
+Definition empty_core : core := mkCore [] [].
+Definition empty_meta : meta := mkMeta empty_core [] 0.
 
 (* ---- association lists ---- *)
 Fixpoint alookup {A} (k : N) (l : list (N * A)) : option A :=
@@ -91,7 +96,6 @@ Definition map_parts (f : part -> part) (ids : list Z) (ps : list part) : list p
                           | None => acc
                           end) ids ps.
 
-(* a fresh partition i of a stream with the given replicas: leader chosen by the proposer *)
 Definition new_part (replicas : list bid) (leader : bid) (idx : N) : part :=
   mkPart replicas (sort_n (dedup replicas)) leader idx idx false false false false.
 
@@ -102,23 +106,25 @@ Fixpoint nth_n (l : list N) (i : nat) (d : N) : N :=
   | [], _ => d
   end.
 
+(* the proposer spreads the leaders over the replicas *)
 Definition new_parts (n : nat) (replicas : list bid) (idx : N) : list part :=
   map (fun i => new_part replicas (nth_n replicas (Nat.modulo i (length replicas)) 0%N) idx) (seq 0 n).
 
 (* ---- consumer groups ---- *)
-Definition nparts_of (m : meta) (s : sid) : Z :=
-  match alookup s (mt_streams m) with
+Definition nparts_of (streams : list (sid * strm)) (s : sid) : Z :=
+  match alookup s streams with
   | Some st => Z.of_nat (length (st_parts st))
   | None => 0
   end.
 
 (* every group hears that stream s is gone (epoch-guarded, as StreamDeleted is) *)
+Definition notify_group (np : sid -> Z) (s : sid) (e : N) (g : grp) : grp :=
+  match stream_deleted np (gr_g g) s e with
+  | GOk g' => mkGrp (gr_coord g) g'
+  | _ => g
+  end.
 Definition notify_deleted (np : sid -> Z) (s : sid) (e : N) (gs : list (gid * grp)) : list (gid * grp) :=
-  map (fun kv => let '(k, g) := kv in
-                 match stream_deleted np (gr_g g) s e with
-                 | GOk g' => (k, mkGrp (gr_coord g) g')
-                 | _ => (k, g)
-                 end) gs.
+  map (fun kv => (fst kv, notify_group np s e (snd kv))) gs.
 
 (* ---- operations ---- *)
 Inductive fop :=
@@ -135,6 +141,43 @@ Inductive fop :=
 | FLeave (g : gid) (c : cid)
 | FCoord (g : gid) (coord : bid)
 | FActivity (i : N).
+
+(* What the metadata leader checks before it proposes an operation (metadata.go check*Preconditions),
+   plus: ISR changes name a replica of the partition (they come from the partition leader's
+   replica table; a foreign id makes apply fail and the server panic, by design). *)
+Definition stream_exists (c : core) (s : sid) : bool :=
+  match alookup s (c_streams c) with Some _ => true | None => false end.
+
+Definition part_of (c : core) (s : sid) (p : Z) : option part :=
+  match alookup s (c_streams c) with
+  | Some st => if valid_pid (st_parts st) p then nth_part (st_parts st) (Z.to_nat p) else None
+  | None => None
+  end.
+
+Definition pre (c : core) (o : fop) : bool :=
+  match o with
+  | FCreate s n replicas => negb (stream_exists c s) && negb (Nat.eqb n 0) && negb (match replicas with [] => true | _ => false end)
+  | FDelete s => stream_exists c s
+  | FPause s ps _ | FResume s ps | FReadonly s ps _ =>
+    match alookup s (c_streams c) with Some st => forallb (valid_pid (st_parts st)) ps | None => false end
+  | FShrink s p r | FExpand s p r =>
+    match part_of c s p with Some q => mem_n r (p_replicas q) | None => false end
+  | FLeader s p _ => match part_of c s p with Some _ => true | None => false end
+  | FGCreate g _ _ ss =>
+    match alookup g (c_groups c) with Some _ => false | None => forallb (stream_exists c) ss end
+  | FJoin g cns ss =>
+    match alookup g (c_groups c) with
+    | Some gr => negb (existsb (fun m => N.eqb (m_id m) cns) (g_members (gr_g gr))) && forallb (stream_exists c) ss
+    | None => false
+    end
+  | FLeave g cns =>
+    match alookup g (c_groups c) with
+    | Some gr => existsb (fun m => N.eqb (m_id m) cns) (g_members (gr_g gr))
+    | None => false
+    end
+  | FCoord g _ => match alookup g (c_groups c) with Some _ => true | None => false end
+  | FActivity _ => true
+  end.
 
 Section Apply.
   Variable v : variant.
@@ -158,175 +201,196 @@ Section Apply.
     mkPart (p_replicas p) (p_isr p) (p_leader p) (p_lepoch p) (p_epoch p) (p_pausedp p) (p_pausedp p)
            (if v_ro v then p_rop p else false) (p_rop p).
 
-  Definition with_part (m : meta) (s : sid) (p : Z) (f : part -> option part) : option meta :=
-    match alookup s (mt_streams m) with
+  Definition with_stream (c : core) (s : sid) (f : strm -> option strm) : option core :=
+    match alookup s (c_streams c) with
     | None => None
-    | Some st =>
+    | Some st => match f st with
+                 | None => None
+                 | Some st' => Some (mkCore (aset s st' (c_streams c)) (c_groups c))
+                 end
+    end.
+
+  Definition with_part (c : core) (s : sid) (p : Z) (f : part -> option part) : option core :=
+    with_stream c s (fun st =>
       if valid_pid (st_parts st) p then
         match nth_part (st_parts st) (Z.to_nat p) with
         | None => None
         | Some q => match f q with
                     | None => None
-                    | Some q' => Some (mkMeta (aset s (mkStrm (set_part (st_parts st) (Z.to_nat p) q') (st_tomb st) (st_resume_all st)) (mt_streams m))
-                                             (mt_groups m) (mt_disk m) (mt_activity m))
+                    | Some q' => Some (mkStrm (set_part (st_parts st) (Z.to_nat p) q') (st_tomb st))
                     end
         end
-      else None
-    end.
-
-  Definition with_stream (m : meta) (s : sid) (f : strm -> option strm) : option meta :=
-    match alookup s (mt_streams m) with
-    | None => None
-    | Some st => match f st with
-                 | None => None
-                 | Some st' => Some (mkMeta (aset s st' (mt_streams m)) (mt_groups m) (mt_disk m) (mt_activity m))
-                 end
-    end.
+      else None).
 
   (* removeStream: out of the map, groups told (the goroutine of the real code is taken to have run) *)
-  Definition remove_stream (m : meta) (s : sid) (e : N) : meta :=
-    let streams := aremove s (mt_streams m) in
-    let m1 := mkMeta streams (mt_groups m) (mt_disk m) (mt_activity m) in
-    mkMeta streams (notify_deleted (nparts_of m1) s e (mt_groups m)) (mt_disk m) (mt_activity m).
+  Definition remove_stream (c : core) (s : sid) (e : N) : core :=
+    let streams := aremove s (c_streams c) in
+    mkCore streams (notify_deleted (nparts_of streams) s e (c_groups c)).
 
-  (* deleteStream: data directory removed as well *)
-  Definition delete_stream (m : meta) (s : sid) (e : N) : meta :=
-    let m1 := remove_stream m s e in
-    mkMeta (mt_streams m1) (mt_groups m1) (aremove s (mt_disk m1)) (mt_activity m1).
+  Definition add_stream (c : core) (s : sid) (ps : list part) : core :=
+    mkCore (aset s (mkStrm ps false) (c_streams c)) (c_groups c).
 
-  Definition add_stream (m : meta) (s : sid) (ps : list part) (idx : N) : meta :=
-    mkMeta (aset s (mkStrm ps false false) (mt_streams m)) (mt_groups m)
-           (match alookup s (mt_disk m) with
-            | Some 0%N | None => aset s idx (mt_disk m)     (* no directory, or an empty one: this create's data *)
-            | Some _ => mt_disk m                           (* existing data is opened, not replaced *)
-            end)
-           (mt_activity m).
+  Definition set_group (c : core) (g : gid) (gr : grp) : core := mkCore (c_streams c) (aset g gr (c_groups c)).
 
-  (* Server.apply: None = the operation fails (the server panics) *)
-  Definition apply (recovered : bool) (idx : N) (m : meta) (o : fop) : option meta :=
+  (* Server.apply on the metadata: None = the operation fails (the server panics) *)
+  Definition apply_core (recovered : bool) (idx : N) (c : core) (o : fop) : option core :=
     match o with
     | FCreate s n replicas =>
       match n, replicas with
       | O, _ | _, [] => None
       | _, _ =>
-        match alookup s (mt_streams m) with
-        | None => Some (add_stream m s (new_parts n replicas idx) idx)
+        match alookup s (c_streams c) with
+        | None => Some (add_stream c s (new_parts n replicas idx))
         | Some st =>
           if recovered && st_tomb st
-          then Some (add_stream (remove_stream m s idx) s (new_parts n replicas idx) idx)   (* un-tombstone: data kept *)
+          then Some (add_stream (remove_stream c s idx) s (new_parts n replicas idx))   (* un-tombstone *)
           else None
         end
       end
     | FDelete s =>
-      match alookup s (mt_streams m) with
+      match alookup s (c_streams c) with
       | None => None
       | Some st =>
         if recovered
-        then let m1 := mkMeta (aset s (mkStrm (st_parts st) true (st_resume_all st)) (mt_streams m)) (mt_groups m) (mt_disk m) (mt_activity m) in
-             Some (if v_notify v
-                   then mkMeta (mt_streams m1) (notify_deleted (nparts_of m1) s idx (mt_groups m1)) (mt_disk m1) (mt_activity m1)
-                   else m1)
-        else Some (delete_stream m s idx)
+        then let streams := aset s (mkStrm (st_parts st) true) (c_streams c) in
+             Some (mkCore streams (if v_notify v then notify_deleted (nparts_of streams) s idx (c_groups c) else c_groups c))
+        else Some (remove_stream c s idx)
       end
-    | FPause s ps all =>
-      with_stream m s (fun st =>
+    | FPause s ps _ =>
+      with_stream c s (fun st =>
         if forallb (valid_pid (st_parts st)) ps
-        then Some (mkStrm (map_parts pause_part (targets (st_parts st) ps) (st_parts st)) (st_tomb st) all)
+        then Some (mkStrm (map_parts pause_part (targets (st_parts st) ps) (st_parts st)) (st_tomb st))
         else None)
     | FResume s ps =>
-      with_stream m s (fun st =>
+      with_stream c s (fun st =>
         if forallb (valid_pid (st_parts st)) ps
-        then Some (mkStrm (map_parts resume_part ps (st_parts st)) (st_tomb st) (st_resume_all st))
+        then Some (mkStrm (map_parts resume_part ps (st_parts st)) (st_tomb st))
         else None)
     | FReadonly s ps ro =>
-      with_stream m s (fun st =>
+      with_stream c s (fun st =>
         if forallb (valid_pid (st_parts st)) ps
-        then Some (mkStrm (map_parts (readonly_part ro) (targets (st_parts st) ps) (st_parts st)) (st_tomb st) (st_resume_all st))
+        then Some (mkStrm (map_parts (readonly_part ro) (targets (st_parts st) ps) (st_parts st)) (st_tomb st))
         else None)
     | FShrink s p r =>
-      with_part m s p (fun q =>
+      with_part c s p (fun q =>
         if (idx <=? p_epoch q)%N then Some q
         else if mem_n r (p_replicas q)
         then Some (mkPart (p_replicas q) (set_remove r (p_isr q)) (p_leader q) (p_lepoch q) idx (p_paused q) (p_pausedp q) (p_ro q) (p_rop q))
         else None)
     | FExpand s p r =>
-      with_part m s p (fun q =>
+      with_part c s p (fun q =>
         if (idx <=? p_epoch q)%N then Some q
         else if mem_n r (p_replicas q)
         then Some (mkPart (p_replicas q) (set_insert r (p_isr q)) (p_leader q) (p_lepoch q) idx (p_paused q) (p_pausedp q) (p_ro q) (p_rop q))
         else None)
     | FLeader s p l =>
-      with_part m s p (fun q =>
+      with_part c s p (fun q =>
         if (idx <=? p_epoch q)%N then Some q
         else if (idx <? p_lepoch q)%N then None
         else Some (mkPart (p_replicas q) (p_isr q) l idx idx (p_paused q) (p_pausedp q) (p_ro q) (p_rop q)))
-    | FGCreate g coord c ss =>
-      match alookup g (mt_groups m) with
+    | FGCreate g coord cns ss =>
+      match alookup g (c_groups c) with
       | Some _ => None
       | None =>
-        match add_member (nparts_of m) new_group c ss 0%N with
-        | GOk g' => Some (mkMeta (mt_streams m) (aset g (mkGrp coord g') (mt_groups m)) (mt_disk m) (mt_activity m))
+        match add_member (nparts_of (c_streams c)) new_group cns ss 0%N with
+        | GOk g' => Some (set_group c g (mkGrp coord g'))
         | _ => None
         end
       end
-    | FJoin g c ss =>
-      match alookup g (mt_groups m) with
+    | FJoin g cns ss =>
+      match alookup g (c_groups c) with
       | None => None
       | Some gr =>
-        match add_member (nparts_of m) (gr_g gr) c ss idx with
-        | GOk g' => Some (mkMeta (mt_streams m) (aset g (mkGrp (gr_coord gr) g') (mt_groups m)) (mt_disk m) (mt_activity m))
+        match add_member (nparts_of (c_streams c)) (gr_g gr) cns ss idx with
+        | GOk g' => Some (set_group c g (mkGrp (gr_coord gr) g'))
         | _ => None
         end
       end
-    | FLeave g c =>
-      match alookup g (mt_groups m) with
+    | FLeave g cns =>
+      match alookup g (c_groups c) with
       | None => None
       | Some gr =>
-        match remove_member (nparts_of m) (gr_g gr) c idx with
+        match remove_member (nparts_of (c_streams c)) (gr_g gr) cns idx with
         | GOk g' =>
-          Some (mkMeta (mt_streams m)
-                       (match g_members g' with [] => aremove g (mt_groups m) | _ => aset g (mkGrp (gr_coord gr) g') (mt_groups m) end)
-                       (mt_disk m) (mt_activity m))
+          Some (match g_members g' with
+                | [] => mkCore (c_streams c) (aremove g (c_groups c))
+                | _ => set_group c g (mkGrp (gr_coord gr) g')
+                end)
         | _ => None
         end
       end
     | FCoord g coord =>
-      match alookup g (mt_groups m) with
+      match alookup g (c_groups c) with
       | None => None
       | Some gr =>
-        if (idx <=? g_epoch (gr_g gr))%N then Some m
-        else Some (mkMeta (mt_streams m)
-                          (aset g (mkGrp coord (mkGroup (g_members (gr_g gr)) (g_owners (gr_g gr)) (g_keys (gr_g gr)) idx)) (mt_groups m))
-                          (mt_disk m) (mt_activity m))
+        if (idx <=? g_epoch (gr_g gr))%N then Some c
+        else Some (set_group c g (mkGrp coord (mkGroup (g_members (gr_g gr)) (g_owners (gr_g gr)) idx)))
       end
-    | FActivity i => Some (mkMeta (mt_streams m) (mt_groups m) (mt_disk m) i)
+    | FActivity _ => Some c
+    end.
+
+  (* the data directories: a create opens what is there or makes a new one; a live delete removes
+     the directory, a replayed one leaves it *)
+  Definition apply_disk (recovered : bool) (idx : N) (d : list (sid * N)) (o : fop) : list (sid * N) :=
+    match o with
+    | FCreate s _ _ =>
+      match alookup s d with
+      | Some 0%N | None => aset s idx d     (* no directory, or an empty one: this create's data *)
+      | Some _ => d                         (* existing data is opened, not replaced *)
+      end
+    | FDelete s => if recovered then d else aremove s d
+    | _ => d
+    end.
+
+  Definition apply (recovered : bool) (idx : N) (m : meta) (o : fop) : option meta :=
+    match apply_core recovered idx (mt_core m) o with
+    | Some c' => Some (mkMeta c' (apply_disk recovered idx (mt_disk m) o)
+                              (match o with FActivity i => i | _ => mt_activity m end))
+    | None => None
     end.
 
   (* finishedRecovery(epoch): tombstoned streams are deleted for good *)
+  Definition finish_core (e : N) (c : core) : core :=
+    fold_left (fun acc kv => if st_tomb (snd kv) then remove_stream acc (fst kv) e else acc) (c_streams c) c.
+  Definition finish_disk (c : core) (d : list (sid * N)) : list (sid * N) :=
+    fold_left (fun acc kv => if st_tomb (snd kv) then aremove (fst kv) acc else acc) (c_streams c) d.
   Definition finish (e : N) (m : meta) : meta :=
-    fold_left (fun acc kv => if st_tomb (snd kv) then delete_stream acc (fst kv) e else acc) (mt_streams m) m.
+    mkMeta (finish_core e (mt_core m)) (finish_disk (mt_core m) (mt_disk m)) (mt_activity m).
 
   (* Snapshot: what the protobufs carry.  Restore: drop the state, re-create from the protobufs
      (streams as recovered creates, groups with their members re-added in the snapshot's order) *)
   Record snap_group := mkSnapGroup { sg_coord : bid; sg_epoch : N; sg_members : list member }.
   Record snapshot := mkSnap { sn_streams : list (sid * list part); sn_groups : list (gid * snap_group) }.
 
-  Definition take_snapshot (m : meta) : snapshot :=
-    mkSnap (map (fun kv => (fst kv, st_parts (snd kv))) (mt_streams m))
-           (map (fun kv => (fst kv, mkSnapGroup (gr_coord (snd kv)) (g_epoch (gr_g (snd kv))) (g_members (gr_g (snd kv))))) (mt_groups m)).
+  Definition take_snapshot (c : core) : snapshot :=
+    mkSnap (map (fun kv => (fst kv, st_parts (snd kv))) (c_streams c))
+           (map (fun kv => (fst kv, mkSnapGroup (gr_coord (snd kv)) (g_epoch (gr_g (snd kv))) (g_members (gr_g (snd kv))))) (c_groups c)).
 
   Definition restore_group (np : sid -> Z) (sg : snap_group) : grp :=
     let g := fold_left (fun g mb => match add_member np g (m_id mb) (Groups.m_streams mb) 0%N with GOk g' => g' | _ => g end)
                        (sg_members sg) new_group in
-    mkGrp (sg_coord sg) (mkGroup (g_members g) (g_owners g) (g_keys g) (sg_epoch sg)).
+    mkGrp (sg_coord sg) (mkGroup (g_members g) (g_owners g) (sg_epoch sg)).
+
+  Definition restore_core (sn : snapshot) : core :=
+    let streams := map (fun kv => (fst kv, mkStrm (map restore_part (snd kv)) false)) (sn_streams sn) in
+    mkCore streams (map (fun kv => (fst kv, restore_group (nparts_of streams) (snd kv))) (sn_groups sn)).
+
+  Definition restore_disk (sn : snapshot) (d : list (sid * N)) : list (sid * N) :=
+    fold_left (fun d kv => match alookup (fst kv) d with Some _ => d | None => aset (fst kv) 0%N d end) (sn_streams sn) d.
 
   Definition restore (disk : list (sid * N)) (activity : N) (sn : snapshot) : meta :=
-    let streams := map (fun kv => (fst kv, mkStrm (map restore_part (snd kv)) false false)) (sn_streams sn) in
-    let disk' := fold_left (fun d kv => match alookup (fst kv) d with Some _ => d | None => aset (fst kv) 0%N d end) (sn_streams sn) disk in
-    let m0 := mkMeta streams [] disk' activity in
-    mkMeta streams (map (fun kv => (fst kv, restore_group (nparts_of m0) (snd kv))) (sn_groups sn)) disk' activity.
+    mkMeta (restore_core sn) (restore_disk sn disk) activity.
 
-  (* a run of operations numbered from idx *)
+  (* runs of operations numbered from idx *)
+  Fixpoint run_core (recovered : bool) (idx : N) (c : core) (ops : list fop) : option core :=
+    match ops with
+    | [] => Some c
+    | o :: r => match apply_core recovered idx c o with
+                | Some c' => run_core recovered (idx + 1) c' r
+                | None => None
+                end
+    end.
+
   Fixpoint run (recovered : bool) (idx : N) (m : meta) (ops : list fop) : option meta :=
     match ops with
     | [] => Some m
@@ -334,5 +398,15 @@ Section Apply.
                 | Some m' => run recovered (idx + 1) m' r
                 | None => None
                 end
+    end.
+
+  (* a live run in which every operation passes the leader's precondition check *)
+  Fixpoint valid_run (idx : N) (c : core) (ops : list fop) : bool :=
+    match ops with
+    | [] => true
+    | o :: r => pre c o && match apply_core false idx c o with
+                           | Some c' => valid_run (idx + 1) c' r
+                           | None => false
+                           end
     end.
 End Apply.
